@@ -61,7 +61,8 @@ func cycleTag(args string) (func(io.Writer, render.Context) error, error) {
 		n := cycleMap[group]
 		cycleMap[group] = n + 1
 		// The parser guarantees that there will be at least one item.
-		_, err = io.WriteString(w, values[n%len(values)])
+		// err must be local: the closure runs concurrently for one parsed template
+		_, err := io.WriteString(w, values[n%len(values)])
 		return err
 	}, nil
 }
